@@ -445,6 +445,7 @@ func (h *hist) gcl(g uint32) {
 			expect[k] = v
 		}
 	}
+	h.countBoundary(g)
 	h.m.GCLow(g)
 	cur := h.m.View()
 	h.line(fmt.Sprintf("gcl %d", g), fmt.Sprintf("up=%d/%d ", len(upper), dels)+storeObs(h.rcMode, h.prev, cur))
@@ -475,7 +476,21 @@ func (h *hist) gcl(g uint32) {
 	h.checkRetained(cur, true)
 }
 
+// countBoundary: a collection whose index and some later committed height differ above the lowest
+// byte of the stored little-endian height.
+func (h *hist) countBoundary(g uint32) {
+	for _, sh := range []uint{8, 16, 24} {
+		for _, ht := range h.heights {
+			if ht > g && ht>>sh != g>>sh {
+				h.o.Count(fmt.Sprintf("gc:retained-window-straddles-2^%d", sh))
+				break
+			}
+		}
+	}
+}
+
 func (h *hist) gc(g uint32) {
+	h.countBoundary(g)
 	h.m.GC(g)
 	if len(h.heights) > 0 {
 		h.persisted = int64(h.heights[len(h.heights)-1])
